@@ -321,6 +321,8 @@ SliceEv(e) ==
              \cup (IF ~ok \/ ToSet(od.alive) # K \/ \A v \in K : Acc(v) \subseteq Got(v) /\ Got(v) \subseteq Src(v) /\ NoDup(ObsKids(od, v))
                    THEN {} ELSE {F(e, "C13", "edges of the slice: an accepted edge is missing or a foreign edge appears")})
              \cup (IF OthersSame(e, {d}) THEN {} ELSE {F(e, "C13", "slice changed its source")})
+             \cup (IF ~HasObs(e, h) \/ Broken(ObsOf(e, h)) \/ safe[h].present \subseteq ToSet(ObsOf(e, h).alive) THEN {}
+                   ELSE {F(e, "C01", "slice removed a vertex of its source")})
       xs == IF ok /\ ObsMatches(od, ref) /\ LatentOk(od, ref) THEN {} ELSE {F(e, "X-slice", "slice differs from the exact model")}
   IN
   [Cur EXCEPT
